@@ -506,6 +506,8 @@ impl<'scope, 'data, P: Platform> ResolutionResources<'data, 'scope, P> {
             return;
         };
 
+        #[cfg(wild_verif)]
+        simrt::sched_point("res_is_taken");
         // Do a read before we call `take`. Reads are cheaper, so this is an optimisation that
         // reduces the need for exclusive access to the cache line.
         if atomic_take.is_taken() {
@@ -514,10 +516,21 @@ impl<'scope, 'data, P: Platform> ResolutionResources<'data, 'scope, P> {
             return;
         }
 
+        #[cfg(wild_verif)]
+        simrt::sched_point("res_take");
         let Some(definitions_out) = atomic_take.take() else {
             // Another thread just beat us to it.
+            #[cfg(wild_verif)]
+            simrt::probe("res_take_lost");
             return;
         };
+        #[cfg(wild_verif)]
+        simrt::event(
+            "res_activate",
+            file_id.group() as u64,
+            file_id.file() as u64,
+            0,
+        );
 
         work_items_do(
             file_id,
@@ -534,6 +547,8 @@ impl<'scope, 'data, P: Platform> ResolutionResources<'data, 'scope, P> {
 
     fn handle_result(&self, result: Result) {
         if let Err(error) = result {
+            #[cfg(wild_verif)]
+            simrt::sched_point("res_error_push");
             let _ = self.outputs.errors.push(error);
         }
     }
